@@ -29,6 +29,8 @@ pub enum Backoff {
     ExpRandom { init: u64, factor10: u8, cap: Option<u64> },
     /// custom, non-monotone function of the attempt
     Custom,
+    /// builder.fixed_backoff(Duration::from_micros(us)), 0 < us < 1000: not "no back-off"
+    FixedMicros(u32),
 }
 
 #[derive(Clone, Debug, Serialize, Deserialize, PartialEq)]
@@ -86,6 +88,7 @@ fn case_strategy(_tier: Tier) -> BoxedStrategy<RetryCase> {
         2 => (1u64..=8, 0u8..=10, prop_oneof![Just(None), (1u64..=40).prop_map(Some)])
             .prop_map(|(init, factor10, cap)| Backoff::ExpRandom { init, factor10, cap }),
         2 => Just(Backoff::Custom),
+        1 => prop_oneof![Just(1u32), Just(900u32), 1u32..=999].prop_map(Backoff::FixedMicros),
     ];
     let budget = prop_oneof![
         3 => Just(Budget::None),
@@ -317,6 +320,11 @@ async fn interp(case: &RetryCase) -> Verdict {
             let ms = *ms;
             independent = Some(Box::new(move |_| ms as u128 * 1_000_000));
             b.fixed_backoff(Duration::from_millis(ms))
+        }
+        Backoff::FixedMicros(us) => {
+            let us = *us;
+            independent = Some(Box::new(move |_| us as u128 * 1_000));
+            b.fixed_backoff(Duration::from_micros(us as u64))
         }
         Backoff::ExpDefault(ms) => {
             let ms = *ms;
